@@ -119,12 +119,11 @@ theorem C07_bound_to_place (s s' : RStore) (cand : RoomNode) (h : accept Defects
   intro room old merged upd _ _ hprep
   exact (prepareWithHistory_sound hprep).roomRow rfl
 
-/-- **C07_partial.** On every candidate that passes `candGuard` — today: the placing references
-    are signed by the entries' authors with the right label and source entity, and no list carries two
-    rows with one id — the code as written
+/-- **C07_partial.** On every candidate that passes `candGuard` — today only: the placing references
+    are signed by the entries' authors with the right label and source entity — the code as written
     decides exactly as the intended checks do, so sections 1 and 2 apply to it. What is missing
-    relative to the full statement is exactly the `placingEdge` and `duplicateIds` witnesses of section 3
-    (and the order of same-date entries). -/
+    relative to the full statement is exactly the `placingEdge` witnesses of section 3 (and the order
+    of same-date entries). -/
 theorem C07_partial (s : RStore) (cand : RoomNode) (g : candGuard s cand = true) :
     accept Defects.asImplemented s cand = accept Defects.none s cand :=
   accept_congr g
@@ -286,20 +285,22 @@ theorem C07_breaks_storedDefinitionTrusted :
     (loaded (stateOf (accept Defects.none polluted upd)) 10).isAdmin 2 400 = true := by
   decide
 
-/-- **two rows with one id in a list.** The candidate's admin list carries the stored admin entry
-    (row 101, signed by key 0) and, after it, a second row with the same id 101 signed by key 5:
-    "key 5 is an admin". The merge compares only the first row with id 101 with the stored entry, and a
-    row whose id is stored is never judged as a new entry: together with one honest new user entry
-    (so that the definition is written) the candidate is accepted and key 5 — an outsider — is an
-    admin of the loaded room. The intended check refuses the candidate. -/
+/-- **two rows with one id in a list — fixed in /repo 846341e, kept as a regression witness about
+    `Defects.beforeFixes`.** The candidate's admin list carries the stored admin entry (row 101, signed
+    by key 0) and, after it, a second row with the same id 101 signed by key 5: "key 5 is an admin". The
+    merge compares only the first row with id 101 with the stored entry, and a row whose id is stored is
+    never judged as a new entry: together with one honest new user entry (so that the definition is
+    written) the candidate was accepted and key 5 — an outsider — was an admin of the loaded room.
+    The code as it is now refuses the candidate, as the intended check does. -/
 theorem C07_breaks_duplicateIdsUnchecked :
     let cand := { room10 with adminNodes := room10.adminNodes ++ [row 101 102 350 5 (.user 5 true)],
                               adminEdges := room10.adminEdges ++ [edge 10 100 32 101 350 5],
                               authNodes := [{ g102 with userNodes := g102.userNodes ++ [row 111 102 300 0 (.user 1 true)],
                                                          userEdges := g102.userEdges ++ [edge 102 101 34 111 300 0] }] }
     (loaded w0 10).isAdmin 5 400 = false ∧
-    (loaded (stateOf (accept Defects.asImplemented w0 cand)) 10).isAdmin 5 400 = true ∧
-    accept { Defects.asImplemented with duplicateIdsUnchecked := false } w0 cand = .err .inconsistent ∧
+    (loaded (stateOf (accept Defects.beforeFixes w0 cand)) 10).isAdmin 5 400 = true ∧
+    accept { Defects.beforeFixes with duplicateIdsUnchecked := false } w0 cand = .err .inconsistent ∧
+    accept Defects.asImplemented w0 cand = .err .inconsistent ∧
     accept Defects.none w0 cand = .err .inconsistent := by
   decide
 
